@@ -1387,8 +1387,9 @@ func (vc *FuncVC) evalCall(env *Env, x *ECall) *CVal {
 			panic(fmt.Errorf("boxof: struct object"))
 		}
 		return &CVal{T: vc.box(v.T, t)}
-	case "unboxptr":
+	case "unboxptr", "unbox":
 		// unboxptr(i, "*pkg.T"): the pointer held by interface value i, typed as *pkg.T
+		// unbox(i, "T"): the value of (non-struct) type T held by interface value i
 		s, ok := x.Args[1].(*EStr)
 		if !ok {
 			panic(fmt.Errorf("unboxptr: type name string expected"))
@@ -1399,7 +1400,7 @@ func (vc *FuncVC) evalCall(env *Env, x *ECall) *CVal {
 		}
 		t := vc.resolveType(s.V, pkg)
 		_, unbox := vc.boxFuncs(t)
-		return &CVal{T: T(app(unbox, arg(0).T), SInt), Typ: t}
+		return &CVal{T: T(app(unbox, arg(0).T), vc.sortOf(t)), Typ: t}
 	case "nonnilptr":
 		// nonnilptr(i): the interface value i does not hold a nil pointer
 		pv := vc.declFun("ptrval", []string{SIface}, SInt)
